@@ -148,6 +148,14 @@ pub struct TraceFanout {
 
 pub static TRACE_FANOUT: Mutex<Option<TraceFanout>> = Mutex::new(None);
 
+/// Baton scenario `satb2` (props/sched.rs): while set, `scan_object` announces every slot it is
+/// about to hand to the visitor (which loads the field) as a scheduling point at the slot's
+/// address (kind `AtomicLoad`; it fires only if the scenario has armed that address).  The SATB
+/// barrier scans the fields of the object being written on the mutator's thread, and another
+/// mutator may store to one of these fields at the same time: with this the two field accesses are
+/// visible operations.  Off (the default): `scan_object` is what it always was.
+pub static SCAN_SLOT_POINTS: AtomicBool = AtomicBool::new(false);
+
 struct TraceRacePacket<C: ObjectTracerContext<VerifVM>> {
     ctx: C,
     obj: ObjectReference,
@@ -793,7 +801,13 @@ impl Collection<VerifVM> for VerifVM {
 impl Scanning<VerifVM> for VerifVM {
     fn scan_object<SV: SlotVisitor<Address>>(_tls: VMWorkerThread, object: ObjectReference, slot_visitor: &mut SV) {
         let n = obj_nrefs(object);
+        let points = SCAN_SLOT_POINTS.load(Ordering::Relaxed);
         for i in 0..n {
+            if points {
+                // scenario `satb2`: the visitor is about to load the field (a plain load in
+                // mmtk-core) while another mutator may be storing to it
+                mmtk::util::verif::rt::sched_point(mmtk::util::verif::rt::Kind::AtomicLoad, field_addr(object, i).as_usize());
+            }
             slot_visitor.visit_slot(field_addr(object, i));
         }
     }
